@@ -93,6 +93,77 @@ func init() {
 	}
 }
 
+// c17hist: several publishes of ONE decoded document object in ONE process, in the given order of
+// visibilities (a later publish must not be influenced by an earlier one, e.g. through caches that
+// are keyed by the document).
+type c17HistJob struct {
+	Gedcom  string   `json:"gedcom"`
+	History []string `json:"history"`
+	Groups  [6]bool  `json:"groups"`
+	Jobs    int      `json:"jobs"`
+}
+
+func init() {
+	workers["c17hist"] = func(args []string) int {
+		var job c17HistJob
+		if err := json.NewDecoder(os.Stdin).Decode(&job); err != nil {
+			fmt.Fprintln(os.Stderr, err)
+			return 2
+		}
+		var sites []*c17Site
+		doc, err := gedcom.NewDocumentFromString(job.Gedcom)
+		for _, vis := range job.History {
+			site := &c17Site{Files: map[string]string{}}
+			if err != nil {
+				site.Err = "decode: " + err.Error()
+			} else {
+				opts := &html.PublishShowOptions{
+					ShowIndividuals: job.Groups[0], ShowPlaces: job.Groups[1], ShowFamilies: job.Groups[2],
+					ShowSurnames: job.Groups[3], ShowSources: job.Groups[4], ShowStatistics: job.Groups[5],
+					LivingVisibility: html.NewLivingVisibility(vis),
+				}
+				if e := html.NewPublisher(doc, opts).Publish(&c17Writer{site: site}, job.Jobs); e != nil {
+					site.Err = "publish: " + e.Error()
+				}
+			}
+			sites = append(sites, site)
+		}
+		json.NewEncoder(os.Stdout).Encode(sites)
+		return 0
+	}
+}
+
+// c17RunWorker runs a worker of this binary in a child process with the job on stdin.
+func c17RunWorker(name string, job interface{}, result interface{}) string {
+	in, _ := json.Marshal(job)
+	cmd := exec.Command(os.Getenv("GVH_BIN"), "worker", name)
+	cmd.Stdin = bytes.NewReader(in)
+	var out, errb bytes.Buffer
+	cmd.Stdout, cmd.Stderr = &out, &errb
+	done := make(chan error, 1)
+	if err := cmd.Start(); err != nil {
+		return "start: " + err.Error()
+	}
+	go func() { done <- cmd.Wait() }()
+	select {
+	case err := <-done:
+		if err != nil {
+			msg := errb.String()
+			if i := strings.Index(msg, "\n\n"); i > 0 {
+				msg = msg[:i]
+			}
+			return "crash: " + strings.TrimSpace(msg)
+		}
+	case <-time.After(120 * time.Second):
+		cmd.Process.Kill()
+		return "timeout"
+	}
+	if err := json.Unmarshal(out.Bytes(), result); err != nil {
+		return "bad worker output: " + err.Error()
+	}
+	return ""
+}
+
 // c17Publish runs one job in a child process (a goroutine panic in publish kills the process, and
 // html.surnames is a process-global cache: one process per site).
 func c17Publish(job c17Job) (*c17Site, string) {
@@ -183,7 +254,14 @@ func c17date(r *Rand, ylo, yhi int) string {
 	return fmt.Sprintf("%d %s %d", 1+r.Intn(28), c17Months[r.Intn(12)], y)
 }
 
-var c17Kinds = []string{"dead-deat", "dead-deat", "dead-age", "living-young", "living-young", "living-nodates", "living-burial", "living-age-rule"}
+var c17Kinds = []string{"dead-deat", "dead-deat", "dead-age", "living-young", "living-young", "living-nodates", "living-burial", "living-age-rule",
+	"living-unreadable-birth"}
+
+// birth dates that exist but cannot be interpreted (worth 0 years): the person's age is unknown, so
+// without a death they are living. c17EmptyDate stands for a `2 DATE` line without a value.
+const c17EmptyDate = "<empty>"
+
+var c17UnreadableDates = []string{"(in the year of the great flood)", "UNKNOWN", "?? ??? 19??", c17EmptyDate, "date unknown", "Abt. ????"}
 
 // c17private fills the private strings of p (names, dates, places) keeping its living status.
 func c17private(r *Rand, p *c17Person, now int, gen int) {
@@ -228,6 +306,8 @@ func c17private(r *Rand, p *c17Person, now int, gen int) {
 		p.burial = c17date(r, now-19, now-1)
 	case "living-age-rule":
 		p.birth, p.birthPl = fmt.Sprintf("%d %s %d", 1+r.Intn(28), c17Months[r.Intn(12)], now-r.Range(95, 99)), place()
+	case "living-unreadable-birth":
+		p.birth, p.birthPl = r.Pick(c17UnreadableDates), place()
 	}
 	if r.Chance(1, 4) {
 		p.resiPl = place()
@@ -386,7 +466,11 @@ func (d *c17Doc) Text() string {
 		}
 		if p.birth != "" {
 			w("1 BIRT")
-			w("2 DATE %s", p.birth)
+			if p.birth == c17EmptyDate {
+				w("2 DATE")
+			} else {
+				w("2 DATE %s", p.birth)
+			}
 			if p.birthPl != "" {
 				w("2 PLAC %s", p.birthPl)
 			}
@@ -532,10 +616,11 @@ func c17GroupsString(g [6]bool) string {
 
 func init() {
 	runners["C17"] = func(c *Ctx) {
-		c.Rule = "family graphs (2-9 people, 1-4 families) whose names/nicknames/alternative names/places are unique marker tokens, living people in every role (child, spouse, parent, unconnected, sharing a surname or place with a dead person, living only by the age rule, burial without death, no dates) x {hide, placeholder} x page-group subsets x jobs 1-4; distinct = (living kind, role, visibility, page groups)"
+		c.Rule = "family graphs (2-9 people, 1-4 families) whose names/nicknames/alternative names/places are unique marker tokens, living people in every role (child, spouse, parent, unconnected, sharing a surname or place with a dead person, living only by the age rule, burial without death, no dates, unreadable birth date) x {hide, placeholder} x page-group subsets x jobs 1-4; distinct = (living kind, role, visibility, page groups)"
 		now := time.Now().Year()
 		c17Components(c, now)
 		c17SpecialSites(c, now)
+		c17Spellingsstream(c, now)
 
 		ndocs := c.N(150, 1600)
 		type siteRun struct {
@@ -547,7 +632,11 @@ func init() {
 			hideA, hideB   *c17Site
 			eShow, ePh     string
 			eHideA, eHideB string
+			hist           [][]*c17Site // publish histories on one document object in one process
+			eHist          []string
 		}
+		histories := [][]string{{"show", "hide"}, {"show", "placeholder"}, {"placeholder", "hide"}, {"hide", "show", "hide"},
+			{"placeholder", "show", "placeholder"}}
 		runs := make([]*siteRun, ndocs)
 		for i := range runs {
 			r := c.R.Fork(fmt.Sprintf("doc%d", i))
@@ -585,6 +674,23 @@ func init() {
 			pub(sr.doc, "placeholder", sr, &sr.ph, &sr.ePh)
 			pub(sr.doc, "hide", sr, &sr.hideA, &sr.eHideA)
 			pub(sr.variant, "hide", sr, &sr.hideB, &sr.eHideB)
+		}
+		for i, sr := range runs {
+			if c.Quick() && i%3 != 0 {
+				continue
+			}
+			sr.hist = make([][]*c17Site, len(histories))
+			sr.eHist = make([]string, len(histories))
+			for h := range histories {
+				h, sr := h, sr
+				wg.Add(1)
+				go func() {
+					defer wg.Done()
+					sem <- struct{}{}
+					defer func() { <-sem }()
+					sr.eHist[h] = c17RunWorker("c17hist", c17HistJob{Gedcom: sr.doc.Text(), History: histories[h], Groups: sr.groups, Jobs: sr.jobs}, &sr.hist[h])
+				}()
+			}
 		}
 		wg.Wait()
 
@@ -719,6 +825,72 @@ func init() {
 				extra["living"] = "hide"
 				return input(extra)
 			})
+
+			// publish histories: the same document object published several times in one process; every
+			// publish must give the site a freshly decoded copy gives under the same visibility
+			fresh := map[string]*c17Site{"show": sr.show, "placeholder": sr.ph, "hide": sr.hideA}
+			for h, sites := range sr.hist {
+				hname := strings.Join(histories[h], " -> ")
+				c.Eval()
+				if sr.eHist[h] != "" || len(sites) != len(histories[h]) {
+					c.Oracle("", "publish history fails: "+hname, input(map[string]interface{}{"history": hname}), sr.eHist[h], "a site per publish")
+					continue
+				}
+				c.Count("history=" + hname)
+				c.Nontrivial("history/" + hname + "/" + gs)
+				for k, site := range sites {
+					vis := histories[h][k]
+					step := fmt.Sprintf("publish %d (%s) of the history %s on one document object", k+1, vis, hname)
+					in := func(extra map[string]interface{}) map[string]interface{} {
+						extra["history"] = hname
+						extra["living"] = vis
+						return input(extra)
+					}
+					if site.Err != "" {
+						c.Oracle("", step+" fails", in(map[string]interface{}{}), site.Err, "a site")
+						continue
+					}
+					if vis != "show" {
+						for _, m := range c17Markers(d) {
+							for name, content := range site.Files {
+								if strings.Contains(strings.ToLower(name), m.token) || strings.Contains(strings.ToLower(content), m.token) {
+									c.Oracle("", fmt.Sprintf("%s mode after an earlier publish of the same document: %s of a living person is written (%s)", vis, m.kind, c17PageKind(strings.ToLower(name))),
+										in(map[string]interface{}{"file": name, "marker": m.token, "person": d.people[m.person].ptr()}),
+										c17Snippet(strings.ToLower(content), m.token), "the marker occurs nowhere")
+								}
+							}
+						}
+					}
+					for name, want := range fresh[vis].Files {
+						got, ok := site.Files[name]
+						if !ok {
+							c.Oracle("", step+": a file of the fresh publish is missing", in(map[string]interface{}{"file": name}), "missing", "same files as a fresh publish")
+						} else if got != want {
+							i := 0
+							for i < len(got) && i < len(want) && got[i] == want[i] {
+								i++
+							}
+							lo, hiG, hiW := i-80, i+60, i+60
+							if lo < 0 {
+								lo = 0
+							}
+							if hiG > len(got) {
+								hiG = len(got)
+							}
+							if hiW > len(want) {
+								hiW = len(want)
+							}
+							c.Oracle("", step+": a page differs from the fresh publish ("+c17PageKind(strings.ToLower(name))+")", in(map[string]interface{}{"file": name}),
+								"…"+got[lo:hiG]+"… vs fresh …"+want[lo:hiW]+"…", "byte for byte equal")
+						}
+					}
+					for name := range site.Files {
+						if _, ok := fresh[vis].Files[name]; !ok {
+							c.Oracle("", step+": a file that a fresh publish does not write", in(map[string]interface{}{"file": name}), "extra file", "same files as a fresh publish")
+						}
+					}
+				}
+			}
 
 			// people who are not living remain fully published in every mode
 			for _, mode := range []struct {
